@@ -225,6 +225,7 @@ class Model(object):
         if self.h is not None:
             self.objval[k] += self.h(remove_scaling(self.xbase + self.points[k, :], self.scaling_changes), *self.argsh)
         self.nsamples[k] += 1
+        self.factorisation_current = False  # the incumbent may move below, and the interpolation matrix is centred at the incumbent
 
         if not np.all(np.isnan(self.objval[:self.npt()])):
             self.kopt = np.nanargmin(self.objval[:self.npt()])  # make sure kopt is always the best (non-NaN) value we have
